@@ -36,7 +36,7 @@ NOT_DECIDED = (
     "equality of values to the written precision; extraction of frame k of a multi-frame file by value; "
     "idempotence and locality of the three template editors (_modify_input, update_cp2k_input, write_for_run)"
 )
-ASSUMPTIONS = ["GROMOS96 fixed-column layout: 24-character record prefix, %15.9f fields (format specification, frozen with this reason)", "str.format / struct format semantics", "numpy.genfromtxt(skip_header=, max_rows=) semantics"]
+ASSUMPTIONS = ["GROMOS96 BOX record order xx yy zz xy xz yx yz zx zy (format specification, frozen with this reason)", "GROMOS96 fixed-column layout: 24-character record prefix, %15.9f fields (format specification, frozen with this reason)", "str.format / struct format semantics", "numpy.genfromtxt(skip_header=, max_rows=) semantics"]
 
 
 def _fields(fmt):
@@ -417,13 +417,126 @@ def r195(ctx):
         raise AnalysisError(f"R-19.5: only {n} _reverse_velocities implementations found")
 
 
+def _fold_ints(e, env):
+    """Fold an integer / range / list-of-int expression with the bindings of env."""
+    if isinstance(e, ast.Constant) and isinstance(e.value, int):
+        return e.value
+    if isinstance(e, ast.Name) and e.id in env:
+        return env[e.id]
+    if isinstance(e, ast.Call) and dotted(e.func) == "range":
+        a = [_fold_ints(x, env) for x in e.args]
+        return list(range(*a))
+    if isinstance(e, (ast.List, ast.Tuple)):
+        return [_fold_ints(x, env) for x in e.elts]
+    if isinstance(e, ast.BinOp) and isinstance(e.op, (ast.Add, ast.Sub)):
+        a, b = _fold_ints(e.left, env), _fold_ints(e.right, env)
+        return a + b if isinstance(e.op, ast.Add) else a - b
+    raise ValueError(ast.unparse(e))
+
+
+def _fold_bool(e, env):
+    if isinstance(e, ast.Compare) and len(e.ops) == 1:
+        a, b = _fold_ints(e.left, env), _fold_ints(e.comparators[0], env)
+        return {ast.Eq: a == b, ast.NotEq: a != b, ast.Lt: a < b, ast.LtE: a <= b, ast.Gt: a > b, ast.GtE: a >= b}[type(e.ops[0])]
+    if isinstance(e, ast.BoolOp):
+        vals = [_fold_bool(v, env) for v in e.values]
+        return all(vals) if isinstance(e.op, ast.And) else any(vals)
+    if isinstance(e, ast.UnaryOp) and isinstance(e.op, ast.Not):
+        return not _fold_bool(e.operand, env)
+    raise ValueError(ast.unparse(e))
+
+
+def _fold_index_list(e, env, locals_, mat):
+    """List of (i, j) index pairs denoted by a list expression over `mat[i, j]`."""
+    if isinstance(e, ast.Call) and last_name(e) in ("array", "asarray", "list") and e.args:
+        return _fold_index_list(e.args[0], env, locals_, mat)
+    if isinstance(e, ast.Name) and e.id in locals_:
+        return _fold_index_list(locals_[e.id], env, locals_, mat)
+    if isinstance(e, ast.BinOp) and isinstance(e.op, ast.Add):
+        return _fold_index_list(e.left, env, locals_, mat) + _fold_index_list(e.right, env, locals_, mat)
+    if isinstance(e, (ast.List, ast.Tuple)):
+        out = []
+        for x in e.elts:
+            out += _fold_index_list(x, env, locals_, mat)
+        return out
+    if isinstance(e, ast.Subscript) and path_of(e.value) == mat:
+        sl = e.slice
+        if isinstance(sl, ast.Tuple) and len(sl.elts) == 2:
+            return [(_fold_ints(sl.elts[0], env), _fold_ints(sl.elts[1], env))]
+        raise ValueError(ast.unparse(e))
+    if isinstance(e, (ast.ListComp, ast.GeneratorExp)):
+        out = []
+
+        def rec(gi, env2):
+            if gi == len(e.generators):
+                out.extend(_fold_index_list(e.elt, env2, locals_, mat))
+                return
+            g = e.generators[gi]
+            it = g.iter
+            if isinstance(it, ast.Name) and it.id in locals_:
+                it = locals_[it.id]
+            for v in _fold_ints(it, env2):
+                env3 = dict(env2)
+                if isinstance(g.target, ast.Name):
+                    env3[g.target.id] = v
+                else:
+                    raise ValueError("tuple target")
+                if all(_fold_bool(c, env3) for c in g.ifs):
+                    rec(gi + 1, env3)
+
+        rec(0, dict(env))
+        return out
+    raise ValueError(ast.unparse(e))
+
+
+G96_BOX_ORDER = [(0, 0), (1, 1), (2, 2), (0, 1), (0, 2), (1, 0), (1, 2), (2, 0), (2, 1)]  # xx yy zz xy xz yx yz zx zy (GROMOS96 BOX record)
+
+
+def r196(ctx):
+    """The flattened 9-component box has the element order of the g96 BOX record."""
+    rid = "R-19.6"
+    tree = ctx.tree
+    f = tree.func(ENGPARTS, "box_matrix_to_list")
+    mat = f.args.args[0].arg
+    locals_ = {}
+    for n in walk_local(f):
+        if isinstance(n, ast.Assign) and len(n.targets) == 1 and isinstance(n.targets[0], ast.Name):
+            locals_[n.targets[0].id] = n.value
+    rets = [r for r in walk_local(f) if isinstance(r, ast.Return) and r.value is not None and not (isinstance(r.value, ast.Constant) and r.value.value is None)]
+    full = None
+    diag = None
+    for r in rets:
+        try:
+            idx = _fold_index_list(r.value, {}, locals_, mat)
+        except (ValueError, KeyError, TypeError) as exc:
+            raise AnalysisError(f"R-19.6: cannot fold the element order of box_matrix_to_list: {exc}")
+        if len(idx) == 9:
+            full = (r, idx)
+        elif len(idx) == 3:
+            diag = (r, idx)
+    if full is None:
+        raise AnalysisError("R-19.6: box_matrix_to_list has no 9-element return")
+    if full[1] == G96_BOX_ORDER:
+        ctx.ok(rid, full[0], "box_matrix_to_list emits xx yy zz xy xz yx yz zx zy - the order of the g96 BOX record and of its own documentation")
+    else:
+        names = "xyz"
+        ctx.bad(rid, full[0], "box_matrix_to_list emits the box elements as " + " ".join(names[i] + names[j] for i, j in full[1]) +
+                " instead of xx yy zz xy xz yx yz zx zy (g96 BOX record): triclinic boxes extracted from TRR frames / CP2K cells are written transposed",
+                construct="box element order " + " ".join(names[i] + names[j] for i, j in full[1]))
+    if diag is not None and diag[1] != G96_BOX_ORDER[:3]:
+        ctx.bad(rid, diag[0], "the 3-component form of the box is not (xx, yy, zz)")
+    elif diag is not None:
+        ctx.ok(rid, diag[0], "3-component form = (xx, yy, zz)")
+
+
 def run(ctx):
+    ctx.rule("R-19.6", "the flattened box matrix has the element order of the g96 BOX record (folded from the source, comprehensions included)", floor=1)
     ctx.rule("R-19.1", "g96 field widths / counts / prefix agree between writer and reader", floor=4)
     ctx.rule("R-19.2", "xyz field count, column order, box token and header line count agree", floor=4)
     ctx.rule("R-19.3", "lammpstrj header line count and column layout agree across four functions", floor=5)
     ctx.rule("R-19.4", "TRR header/data item tables agree with what is read; swap_endian involution; precision dispatch", floor=8)
     ctx.rule("R-19.5", "reverse-velocity siblings negate velocities and nothing else", floor=5)
-    for r in (r191, r192, r193, r194, r195):
+    for r in (r191, r192, r193, r194, r195, r196):
         ctx.attempt(r, ctx)
 
 
@@ -448,6 +561,9 @@ VARIANTS = [
     B("c19-reverse-changes-positions", CP2K, "        xyz, vel, box, names = self._read_configuration(filename)\n        write_xyz_trajectory(\n            outfile, xyz, -1.0 * vel, names, box, append=False\n        )", "        xyz, vel, box, names = self._read_configuration(filename)\n        xyz *= 1.0\n        write_xyz_trajectory(\n            outfile, xyz, -1.0 * vel, names, box, append=False\n        )", "R-19.5", control=True),
     B("c19-reverse-not-negated", TURTLE, "            outfile, xyz, -1.0 * vel, names, box, append=False", "            outfile, xyz, 1.0 * vel, names, box, append=False", "R-19.5"),
     B("c19-reverse-lammps-not-negated", LAMMPS, "        id_type, pos, vel, box = read_lammpstrj(filename, 0, self.n_atoms)\n        vel *= -1.0\n", "        id_type, pos, vel, box = read_lammpstrj(filename, 0, self.n_atoms)\n", "R-19.5"),
+    B("c19-box-order-transposed", ENGPARTS, "            matrix[0, 1],\n            matrix[0, 2],\n            matrix[1, 0],\n            matrix[1, 2],\n            matrix[2, 0],\n            matrix[2, 1],", "            matrix[1, 0],\n            matrix[2, 0],\n            matrix[0, 1],\n            matrix[2, 1],\n            matrix[0, 2],\n            matrix[1, 2],", "R-19.6", control=True, why="seeded C19_a (literal form)"),
+    B("c19-box-order-comprehension-transposed", ENGPARTS, "    return np.array(\n        [\n            matrix[0, 0],\n            matrix[1, 1],\n            matrix[2, 2],\n            matrix[0, 1],\n            matrix[0, 2],\n            matrix[1, 0],\n            matrix[1, 2],\n            matrix[2, 0],\n            matrix[2, 1],\n        ]\n    )", "    dim = range(3)\n    diagonal = [matrix[i, i] for i in dim]\n    off_diagonal = [matrix[i, j] for j in dim for i in dim if i != j]\n    return np.array(diagonal + off_diagonal)", "R-19.6", why="seeded C19_a"),
+    K("c19-keep-box-order-comprehension", ENGPARTS, "    return np.array(\n        [\n            matrix[0, 0],\n            matrix[1, 1],\n            matrix[2, 2],\n            matrix[0, 1],\n            matrix[0, 2],\n            matrix[1, 0],\n            matrix[1, 2],\n            matrix[2, 0],\n            matrix[2, 1],\n        ]\n    )", "    dim = range(3)\n    diagonal = [matrix[i, i] for i in dim]\n    off_diagonal = [matrix[i, j] for i in dim for j in dim if i != j]\n    return np.array(diagonal + off_diagonal)"),
     K("c19-keep-g96-width-via-const", GROMACS, "    _len = 15\n", "    _len = 5 * 3\n"),
     K("c19-keep-reverse-unary", CP2K, "outfile, xyz, -1.0 * vel, names, box, append=False", "outfile, xyz, -vel, names, box, append=False"),
     K("c19-keep-trr-items-list", GROMACS, 'TRR_DATA_ITEMS = (\n    "box_size",', 'TRR_DATA_ITEMS = (  # file order\n    "box_size",'),
